@@ -1,4 +1,7 @@
 import NavisModel.Model.Heap
+import NavisModel.Model.HeapDeep
+import NavisModel.Model.InputWrites
+import NavisModel.Gen.CopySpec
 import NavisModel.Drv.Proto
 /-!
 Line protocol for C03 (heap model).  All payloads are blank-separated `key=value` words.
@@ -18,7 +21,13 @@ Line protocol for C03 (heap model).  All payloads are blank-separated `key=value
   object, `f` = a fresh object)
 * `c03.listop op=<add|sub|and|or|orl|orprefix> k=<members> present=<0|1> extra=<m>` →
   `newlist=<0|1> recv=<len of the receiver afterwards> res=<len of the result> ext=<0|1>`
-* `c03.trace ip=<0|1> evs=<g|w|wi|d|b , …>` → `ok=<0|1> nwbg=<0|1> frame=<0|1> same=<0|1>`
+* `c03.trace ip=<0|1> evs=<g|w|wi|d|b|ri|ld , …>` → `ok=<0|1> nwbg=<0|1> frame=<0|1> same=<0|1> eq=<0|1> fresh=<0|1>`
+  (`eq`: in-place end state == state of the object the copying run returns; `fresh`: that object is new)
+* `c03.deep mode=<shallow|deep1|cls.attr> kids=<v1,v2,…|-> edits=<i:<idx>:<v> | a:<v> | d:<idx> ; …|->` → two-level container
+  (a dict of lists / a list of arrays with contents `v1, v2, …`) copied with the given mode (or the mode the generated
+  `CopySpec.nestedMode` records for `cls.attr`, e.g. `TreeNeuron.tags`), then edited through the copy:
+  `mode=<…> frame=<0|1> in=<contents of the input afterwards> out=<contents of the copy>`
+* `c03.annot key=<file:function>` → `col=<a,b|-> attr=<…|-> via=<…|->` the documented annotations of that function
 -/
 namespace Navis.Drv.C03
 open Navis.Heap Navis.Proto
@@ -93,6 +102,7 @@ def report (s : Store) (x : Ref) (p : Store × Ref) (wo : Bool) : String :=
 
 def pEv (s : String) : Option Ev := match s with
   | "g" => some .guard | "w" => some .write | "wi" => some .writeIn | "d" => some .delegate | "b" => some .branch
+  | "ri" => some .retIn | "ld" => some .lostDelegate
   | _ => none
 
 def showMember (n : Nat) (r : Ref) : String := if r < n then s!"s{r}" else "f"
@@ -173,7 +183,40 @@ def run (cmd rest : String) : Option String :=
     let evs ← (look m "evs") >>= fun e => if e == "-" || e.isEmpty then some [] else (e.splitOn ",").mapM pEv
     let (s, x) := addObj {} [some 10, some 20, none, none] 1
     let p := runTrace bump evs s x ip
-    pure s!"ok={b01 (okTrace evs)} nwbg={b01 (noWriteBeforeGuard evs)} frame={b01 (frameB s p.1 x)} same={b01 (p.2 == x)}"
+    -- `eq`: observable end state of the in-place run == observable state of the object the copying run hands back
+    let pt := runTrace bump evs s x true
+    let pf := runTrace bump evs s x false
+    pure (s!"ok={b01 (okTrace evs)} nwbg={b01 (noWriteBeforeGuard evs)} frame={b01 (frameB s p.1 x)} same={b01 (p.2 == x)} " ++
+      s!"eq={b01 (pt.1.abs pt.2 == pf.1.abs pf.2)} fresh={b01 (s.objs.length ≤ pf.2)}")
+  | "deep" => do
+    let modeS ← look m "mode"
+    let mode ← match modeS with
+      | "shallow" => some Navis.HeapDeep.CopyMode.shallow
+      | "deep1" => some Navis.HeapDeep.CopyMode.deep1
+      | other => match other.splitOn "." with
+        | [c, a] => (Navis.Gen.CopySpec.nestedMode.find? fun e => e.1 == c && e.2.1 == a).map (·.2.2)
+        | _ => none
+    let kidsS ← look m "kids"
+    let vals ← if kidsS == "-" || kidsS.isEmpty then some [] else (kidsS.splitOn ",").mapM String.toInt?
+    let edS := (look m "edits").getD "-"
+    let pEdit (t : String) : Option Navis.HeapDeep.Edit := match t.splitOn ":" with
+      | ["i", i, v] => do let i ← i.toNat?; let v ← v.toInt?; pure (.inner i v)
+      | ["a", v] => v.toInt?.map .add
+      | ["d", i] => i.toNat?.map .del
+      | _ => none
+    let edits ← if edS == "-" || edS.isEmpty then some [] else (edS.splitOn ";").mapM pEdit
+    -- store: the inner containers, then the outer one
+    let s : Navis.HeapDeep.Store := vals.map Navis.HeapDeep.Cell.leaf ++ [Navis.HeapDeep.Cell.node (List.range vals.length)]
+    let r := vals.length
+    let p := Navis.HeapDeep.copyWith mode s r
+    let t := Navis.HeapDeep.applyEdits p.1 p.2 edits
+    let sh (l : List Int) : String := if l.isEmpty then "-" else ",".intercalate (l.map toString)
+    let ms := match mode with | .shallow => "shallow" | .deep1 => "deep1"
+    pure s!"mode={ms} frame={b01 (Navis.HeapDeep.frameB s t)} in={sh (Navis.HeapDeep.absOf t r)} out={sh (Navis.HeapDeep.absOf t p.2)}"
+  | "annot" => do
+    let key ← look m "key"
+    let sh (l : List String) : String := if l.isEmpty then "-" else ",".intercalate l
+    pure s!"col={sh (Navis.InputWrites.annotationsOf key "col")} attr={sh (Navis.InputWrites.annotationsOf key "attr")} via={sh (Navis.InputWrites.annotationsOf key "via")}"
   | _ => none
 
 end Navis.Drv.C03
